@@ -94,6 +94,7 @@ package main
 //@     assert[C17:read-under-validated-id] valid && arg2 == vid
 //@     assert[C19:read-the-named-request] arg3 == hget(r.Header, "X-Inverting-Proxy-Request-ID") && arg3 != "" && reads == 0
 //@     do reads = reads + 1
+//@     do readOK = ret1 == nil
 //@     assume ret1 == nil ==> ret0 != nil
 //@   ghost served int = 0
 //@   ghost readOK bool = false
